@@ -47,6 +47,7 @@ def check_page(eng, text, res, exp, oc):
 
 def run(oc, tier, seed):
     pagegen.SAME_DAY_MOD_RATE = 0.25
+    pagegen.BULLET_SHARED_KEY_RATE = 0.4
     rng = random.Random(seed)
     pool = lib.pool()
     eng = lib.Engine()
